@@ -140,6 +140,26 @@ Section Worker.
       apply IH. apply step_reported_ok. exact H.
   Qed.
 
+  (* no dial begins at or after the deadline *)
+  Definition dials_ok (st : wstate) : Prop := forall t, In t (dial_times st) -> t < dl.
+
+  Lemma step_dials_ok : forall st a, dials_ok st -> dials_ok (step st a).
+  Proof.
+    intros st a H. unfold step, worker_step.
+    destruct (stopped st); [exact H|].
+    destruct (clock st) as [t|]; [|exact H].
+    destruct (dl <=? t) eqn:Ed; [exact H|].
+    destruct (skip m port a); [exact H|].
+    apply N.leb_gt in Ed.
+    destruct (probe_time tm (hosts a)); intros x [<-|Hx]; try exact Ed; apply H; exact Hx.
+  Qed.
+
+  Lemma run_dials_ok : forall addrs st, dials_ok st -> dials_ok (fold_left step addrs st).
+  Proof.
+    induction addrs as [|a addrs IH]; intros st H; [exact H|].
+    cbn [fold_left]. apply IH. apply step_dials_ok. exact H.
+  Qed.
+
   (* time: if every probe returns within A, the worker's clock never passes dl + A *)
   Variable A : N.
   Hypothesis probes_bounded : forall b, exists d, probe_time tm b = Some d /\ d <= A.
@@ -279,4 +299,14 @@ Proof.
         apply key_eqb_eq in E2. subst k. rewrite key_eqb_refl in Ekk. discriminate.
     - apply IH. unfold map_add. rewrite Ek. exact E. }
   rewrite (G (fun _ => None) (fun _ => None) eq_refl). reflexivity.
+Qed.
+
+Lemma no_dial_after_deadline : forall tm dl m port hosts work t,
+  In t (run_dial_times tm dl m port hosts work) -> t < dl.
+Proof.
+  intros tm dl m port hosts work t Hin.
+  unfold run_dial_times in Hin. apply in_flat_map in Hin. destruct Hin as (addrs & _ & Hin).
+  assert (P : dials_ok dl (worker_run tm dl m port hosts addrs 0)).
+  { unfold worker_run. apply run_dials_ok. intros x []. }
+  exact (P t Hin).
 Qed.
